@@ -1,5 +1,6 @@
 """Sidecar contracts on the real functions of /repo (no edit of /repo).  One module per anchored area."""
 MODULES = [
+    "c01_single",
     "c15_tables",
     "c16_bins",
 ]
